@@ -141,7 +141,8 @@ class IoWorld(World):
         if kind == "GEO":
             return [r.choice([-179.99999999999, 179.123456789012, 0.0, r.uniform(-180, 180),
                               2.123456789]),
-                    r.uniform(-89.9, 89.9), r.choice([0.0, -100.5, 9999.123456, r.uniform(-400, 9000)])]
+                    r.choice([r.uniform(-89.9, 89.9), r.uniform(-89.9, 89.9), 48.5, -12.25]),   # positions repeat
+                    r.choice([0.0, -100.5, 9999.123456, r.uniform(-400, 9000)])]
         # -999999.x: a legitimate ECEF coordinate whose integer part is the reader's no-data marker
         return [r.choice([r.uniform(-6.4e6, 6.4e6), -999999.25]), r.choice([r.uniform(-6.4e6, 6.4e6), 0.0005, -999998.5, -999999.75]),
                 r.uniform(-6.4e6, 6.4e6)]
@@ -171,10 +172,12 @@ class IoWorld(World):
         kind = r.choice(["ENU", "ENU", "GEO"])
         nn = r.randint(1, 5)
         ids = ["n%d" % i for i in range(nn)]
+        tiny = [4e-05, 0.00025, 6.1e-10, -3.5e-07]          # printed with an exponent by the WKT writer
         if kind == "ENU":
-            pos = {v: [r.uniform(-1e4, 1e4), float(r.randint(-50, 50))] for v in ids}
+            pos = {v: [r.choice([r.uniform(-1e4, 1e4)] * 4 + tiny), float(r.randint(-50, 50))] for v in ids}
         else:
-            pos = {v: [r.uniform(-179, 179), r.uniform(-89, 89)] for v in ids}
+            pos = {v: [r.choice([r.uniform(-179, 179)] * 4 + tiny), r.choice([r.uniform(-89, 89)] * 4 + tiny)]
+                   for v in ids}
         edges = []
         for k in range(r.randint(1, 6)):
             a, b = r.choice(ids), r.choice(ids)
@@ -340,7 +343,8 @@ class IoWorld(World):
         f = self._fault(r, WRITE_FAULTS)
         if f:
             st["fault"] = f
-        rd = {"op": "read_network" if r.random() < 0.75 else "read_net_wkt", "path": path, "s": s, "dt": 1}
+        rd = {"op": "read_network" if r.random() < 0.75 else "read_net_wkt", "path": path, "s": s, "dt": 1,
+              "api": r.choice(["dict", "dict", "named", "named_custom"])}
         f = self._fault(r, READ_FAULTS)
         if f:
             rd["fault"] = f
@@ -875,14 +879,27 @@ class IoWorld(World):
         if not e or e["type"] != "net" or e["state"] != "acked":
             raise Skip()
         self._outcome = "ok"
-        fmt, exc0 = self.call(NetworkFormat, {"pos_edge_id": 0, "pos_source": 1, "pos_target": 2,
-                                             "pos_direction": 3, "pos_wkt": 4, "separator": e["sep"],
-                                             "header": e["h"], "srid": e["net"]["kind"]})
+        api = st.get("api", "dict")
+        custom = False
+        if api in ("named", "named_custom") and e["sep"] == "," and e["h"] == 1:
+            # the layout of the network writer is a named format of the resource file: IGN (ENU) / IGNGEO
+            name = "IGN" if e["net"]["kind"] == "ENU" else "IGNGEO"
+            fmt, exc0 = self.call(NetworkFormat, name)
+            self.probe("network_read_with_a_named_format")
+            if exc0 is None and api == "named_custom":
+                fmt.pos_direction = -1          # this user's own format object: he wants every road two-way
+                custom = True
+        else:
+            fmt, exc0 = self.call(NetworkFormat, {"pos_edge_id": 0, "pos_source": 1, "pos_target": 2,
+                                                 "pos_direction": 3, "pos_wkt": 4, "separator": e["sep"],
+                                                 "header": e["h"], "srid": e["net"]["kind"]})
         if exc0 is not None:
             self.fail("C13", "networkformat.raised", "NetworkFormat(dict) raised %r" % (exc0,))
             return "raised"
         rv, exc, fired = self._io_call(st, NetworkReader.readFromFile, st["path"], fmt, False)
         if self._read_outcome(exc, fired, "net.read.raised"):
+            if custom:
+                e = dict(e, net=dict(e["net"], edges=[[ed[0], ed[1], ed[2], 0, ed[4]] for ed in e["net"]["edges"]]))
             self._judge_network(e, rv)
         return self._outcome
 
